@@ -35,6 +35,7 @@ impl Pairs {
         let mut items: Vec<(String, String, &'static str)> = vec![];
         let strs = r#"{"s":["ab","xabx","a","b","abc","x","","a b","ab c"],"p":"ab","k":1,"x y":{"a":1},"xy":{"a":2},"a":[1,2,3,{"b":1}],"first name":"A","firstname":"B"}"#;
         let strs2 = r#"{"s":["ab","xabx"],"p":"a","k":2,"x y":7,"xy":8,"a":[3,2,1],"first name":"C","firstname":"D"}"#;
+        let quotes = r#"{"it's a b":1,"it's ab":2,"say \"a b\"":3,"say \"ab\"":4,"0":"zero","1":"one","rows":[["a0","a1"],{"0":"b0","1":"b1"}],"list":[{"t":"it's a b"},{"t":"it's ab"}]}"#;
         let arr = r#"[{"a":1,"b":"x"},{"a":2,"b":"ab"},{"a":[1,2],"b":"xabx"},[1,2,3],"ab"]"#;
         // every plausible cache key collision
         let queries = [
@@ -45,11 +46,14 @@ impl Pairs {
             "$['x y']", "$['xy']", "$[ 'xy' ]", "$[\"xy\"]", "$.xy", "$['x y'].a", "$['xy'].a", "$['first name']", "$['firstname']", "$.firstname", "$.s[?@ == 'a b']", "$.s[?@ == 'ab']", "$.s[?@=='ab']", "$.s[?@ == 'ab c']", "$.s[?@ == 'abc']",
             "$.a", "$.a[0]", "$.a[-1]", "$.a[*]", "$ .a", "$.a [0]", "$.A", "$.a[0,0]", "$.a[1:]", "$.a[::-1]", "$..a", "$..b", "$..*", "$[*]", "$", "$.k", "$[?@.a]", "$[?@.a == 1]", "$[?@.a == 2]", "$[?@.a > $.k]", "$[?count(@.*) > 1]",
             "$[?length(@) > 2]", "$[?length(@) > 1]", "$.s[?length(@) == 2]", "$.s[?length(@) == 3]", "$..[?@.b]", "$.a[?@ > 1]", "$.a[?@ > 2]", "$[?@.b == 'x']", "$[?@.b == 'ab']", "$.p", "$..x", "$..leaf", "$..tag", "$..[0]",
+            // literals that contain the other quote character followed by blanks; numeric member
+            // names vs indices (entry points that take different routes)
+            "$[?@.t == \"it's a b\"]", "$[?@.t == \"it's ab\"]", "$[\"it's a b\"]", "$[\"it's ab\"]", "$..['say \"a b\"']", "$..['say \"ab\"']", "$[1]", "$['1']", "$[0]", "$['0']", "$.rows[1][1]", "$.rows[0]['1']", "$.rows[1]['1']", "$.rows[0][1]",
             // failing parses interleaved with valid ones (leaks on the error path)
             "$[?@[?@[?@[?@[?count(1)==1]]]]]", "$[?@.a && (@.b || (@.c && (@.d || match(@.e,'x')==true)))]", "$[?@[?@[?@[?@[?@[?@[?@[?@[9007199254740992]==1]]]]]]]]", "$[?(((((((length(@.a,1)==1)))))))]", "$[?@[?@[?length(@.*)==1]]]", "$[?!(!(!(!(value(1)==1))))]",
             "$.a ", "$[", "$[?@.a ==]", "$[?match(@.a,'b')==true]", "$[9007199254740992]", "$[?length(@.a,1)==1]", "$['a\tb']", "$[?(@.a", "$[?@[?@[?@.a ==]]]", "$[?@.a && (@.b || ]", "$[?count(1)==1]", "$[?@.a == 01]",
         ];
-        let mut docs: Vec<String> = vec![strs.to_string(), strs2.to_string(), arr.to_string(), "[]".into(), "3".into(), r#"{"a":{"a":{"a":1}}}"#.into()];
+        let mut docs: Vec<String> = vec![strs.to_string(), strs2.to_string(), quotes.to_string(), arr.to_string(), "[]".into(), "3".into(), r#"{"a":{"a":{"a":1}}}"#.into()];
         // an equal-valued document that will live at a different address
         docs.push(strs.to_string());
         docs.push(deep_doc(100).to_text());
@@ -62,7 +66,7 @@ impl Pairs {
         for (di, d) in docs.iter().enumerate() {
             for q in queries.iter() {
                 // every query on the first three documents, a sample on the others
-                if di < 3 || di == 7 || rng.chance(1, tier.pick(6, 2)) {
+                if di < 4 || di == 8 || rng.chance(1, tier.pick(6, 2)) {
                     items.push((q.to_string(), d.clone(), "collision-set"));
                 }
             }
@@ -327,12 +331,15 @@ pub fn run(ctx: &Ctx) -> Result<Evidence, String> {
             continue;
         }
         let doc = doc_cache[dtext.as_str()].clone();
-        let shared_mode = round % 2 == 0;
+        let shared_mode = round % 3 == 0;
+        // third mode: every thread goes through the text entry points (parse at every call)
+        // with many distinct query texts in rotation
+        let text_mode = round % 3 == 2;
         let shared_case = subset[r.below(subset.len() as u64) as usize];
         let shared_q = Arc::new(parsed[shared_case].clone().unwrap());
         let barrier = Barrier::new(threads);
         let log = Mutex::new(Vec::<(u64, usize, bool, usize)>::new());
-        let iters = 12;
+        let iters = if text_mode { 40 } else { 12 };
         std::thread::scope(|s| {
             for t in 0..threads {
                 let (doc, shared_q, barrier, log, subset, pairs, baseline, tick, parsed) = (&doc, &shared_q, &barrier, &log, &subset, &pairs, &baseline, &tick, &parsed);
@@ -359,7 +366,13 @@ pub fn run(ctx: &Ctx) -> Result<Evidence, String> {
                     for _ in 0..iters {
                         let case = if shared_mode { shared_case } else { subset[r.below(subset.len() as u64) as usize] };
                         let t0 = tick.fetch_add(1, Ordering::SeqCst);
-                        let out = if shared_mode { libapi::process(shared_q, doc) } else { libapi::process(parsed[case].as_ref().unwrap(), doc) };
+                        let out = if shared_mode {
+                            libapi::process(shared_q, doc)
+                        } else if text_mode {
+                            libapi::query_with_path(&pairs.items[case].0, doc)
+                        } else {
+                            libapi::process(parsed[case].as_ref().unwrap(), doc)
+                        };
                         let t1 = tick.fetch_add(1, Ordering::SeqCst);
                         local.push((t0, t, true, case));
                         local.push((t1, t, false, case));
@@ -373,7 +386,7 @@ pub fn run(ctx: &Ctx) -> Result<Evidence, String> {
                             let want = b.get("ok").cloned().unwrap_or_else(|| json!({"err": b.get("err").cloned().unwrap_or(Value::Null)}));
                             if got_paths != want {
                                 ctx.violate(
-                                    &format!("concurrent evaluation ({} threads, {}) of {:?} returned a result that differs from the fresh-process result", threads, if shared_mode { "one shared parsed query" } else { "own queries, shared document" }, pairs.items[case].0),
+                                    &format!("concurrent evaluation ({} threads, {}) of {:?} returned a result that differs from the fresh-process result", threads, if shared_mode { "one shared parsed query" } else if text_mode { "text entry points, shared document" } else { "own parsed queries, shared document" }, pairs.items[case].0),
                                     json!({"kind":"schedule","threads": threads, "round": round, "case": pairs.describe(case), "fresh_process": want, "observed": got_paths}),
                                 );
                                 break;
